@@ -15,9 +15,9 @@ RULE = ("case = DAG (kLeastAbsErrors, also run through kLeastAbsErrorsCycles as 
 CASE_TIMEOUT = {"quick": 150, "thorough": 600}
 REQUIRED_OBS = {"c07.consistency_judged": 200, "c07.dag_optimum_compared": 100, "c07.cyc_witness_compared": 50, "c07.differential_pairs": 50}
 ASSUMPTIONS = ["cyclic optimality is a witness comparison (walk multiplicities <= 3 in quick, <= 4 in thorough): only 'library worse than a concrete witness' alarms",
-               "a solve that hits the 30 s solver limit yields no verdict"]
+               "a solve that hits the 10 s solver limit yields no verdict"]
 EXHAUSTIVE = {"quick": False, "thorough": False}
-SO = {"threads": 1, "time_limit": 30}
+SO = {"threads": 1, "time_limit": 10}
 
 
 def gen_cases(tier, seed):
@@ -52,7 +52,7 @@ def gen_cases(tier, seed):
                 c["ends"] = [rng.choice(inner)]
         if not cyc and rng.random() < 0.15:
             ws = [w for _, w in base["planted"]][:3] or [1]
-            c["superset"] = ws + [rng.choice([1, 2]) if wt == "int" else 0.5]
+            c["superset"] = ws + [rng.choice([1, 2]) if wt == "int" else 0.5] + [rng.choice([1, 3]) if wt == "int" else 1.5]
         drop = [e for e in [models._elem(x) for x in c["ignore"]] if rng.random() < 0.3]
         c["spec"] = I.spec_of(base, drop_attr=drop)
         cases.append(c)
@@ -144,6 +144,8 @@ def run_case(case):
         # exactly k routes (no superset, no extra starts/ends)
         if case["superset"] is None and not case["starts"] and not case["ends"] and len(routes) != k:
             viol.append({"sig": f"C07/{cls}/number-of-routes!=k{tagstr}", "msg": f"{len(routes)} routes for k={k}; {desc}"})
+        if len([r for r in routes if r]) > k:
+            viol.append({"sig": f"C07/{cls}/more-than-k-routes{tagstr}", "msg": f"{len([r for r in routes if r])} non-empty routes for k={k}; {desc}"})
         ex = models.explained(sol, mode)
         rec = {e: abs(f - ex.get(e, 0)) for e, f in demand.items()}
         rec_obj = sum(rec[e] * sc.get(e, 1) for e in rec)
